@@ -84,11 +84,44 @@ Proof.
 Defined.
 Definition root_eqb (a b : root) : bool := if root_dec a b then true else false.
 
+Definition client_paths_dec : forall a b : list (str * list N), {a = b} + {a <> b} :=
+  list_eq_dec (pair_dec str_dec (list_eq_dec N.eq_dec)).
+
+(* The codec observation sets one client property at a time. A singular enum field with implicit
+   presence whose enum has a single value (number 0) cannot be given a value the codec sees as set, and
+   an enum with no_default and a single value has no legal value at all: such properties are never
+   exercised on the real side, so they are left out on the model side as well. *)
+Definition settable (D : desc) (f : field) : bool :=
+  match f_kind f with
+  | KEnum =>
+      match find_enum D (value_full f) with
+      | Some (Enum _ _ _ [_] eo _) =>
+          match eo with
+          | Some (EnumOpt true _) => false
+          | _ => match f_card f with CSingle => false | _ => true end
+          end
+      | _ => true
+      end
+  | _ => true
+  end.
+Definition obs_codec_classes (D : desc) (st : sset) (m : msgd) (r : root) : N * N :=
+  match new_prop_set D st r m with
+  | Ok pfs =>
+      (0%N, fold_right (fun pf acc =>
+                          let q := last_named pfs pf in
+                          worst acc (match q with
+                                     | (_, Some f) => if settable D f then prop_class D st m q else 0%N
+                                     | _ => prop_class D st m q
+                                     end)) 0%N pfs)
+  | o => (cls o, cls o)
+  end.
+
 (* ---- observations *)
 Inductive c18obs :=
 | OSet (file : str) (class : N) (consistent : bool) (set : list (ref * option root))  (* SchemaSetFromFiles including one file *)
 | OMsg (full : str) (class : N) (consistent : bool) (r : option root)                 (* SchemaCache.Schema on a fresh cache *)
-| OClient (full : str) (class : N) (dup : bool) (unresolved : bool) (* ClientProperties of the reflected object *)
+| OClient (full : str) (class : N) (dup : bool) (unresolved : bool) (paths : list (str * list N))
+    (* ClientProperties of the reflected object: flags, and (JSON name, proto field path) of every client property in order *)
 | OCodec (full : str) (class_empty class_fields : N)               (* codec: encode empty; worst over single-field messages *)
 | OHist (l : list (str * N)).                                      (* one shared cache, classes in call order *)
 Inductive c18case := C18Case (d : desc) (obs : list c18obs).
@@ -125,7 +158,7 @@ Definition check_obs (D : desc) (o : c18obs) : bool :=
           | (_, other), _ => N.eqb class (cls other)
           end
       end
-  | OClient full class dup unresolved =>
+  | OClient full class dup unresolved paths =>
       match find_msg D full with
       | None => false
       | Some m =>
@@ -134,6 +167,7 @@ Definition check_obs (D : desc) (o : c18obs) : bool :=
               match client_props_of st r with
               | Ok ps => N.eqb class 0 && Bool.eqb dup (negb (names_unique_b ps))
                          && Bool.eqb unresolved (negb (props_resolve D st m ps))
+                         && (if client_paths_dec (map (fun p => (p_json p, p_path p)) ps) paths then true else false)
               | other => N.eqb class (cls other)
               end
           | _ => false
@@ -144,7 +178,7 @@ Definition check_obs (D : desc) (o : c18obs) : bool :=
       | None => false
       | Some m =>
           match cache_schema D (size D) [] m with
-          | (st, Ok r) => let '(e, f) := codec_classes D st m r in N.eqb ce e && N.eqb cf f
+          | (st, Ok r) => let '(e, f) := obs_codec_classes D st m r in N.eqb ce e && N.eqb cf f
           | _ => false
           end
       end
@@ -185,12 +219,13 @@ Definition obs_model (D : desc) (o : c18obs) : list N :=
                   | (_, other) => [cls other]
                   end
       end
-  | OClient full _ _ _ =>
+  | OClient full _ _ _ paths =>
       match find_msg D full with
       | None => [99%N]
       | Some m => match cache_schema D (size D) [] m with
                   | (st, Ok r) => match client_props_of st r with
-                                  | Ok ps => [0%N; if names_unique_b ps then 0%N else 1%N; if props_resolve D st m ps then 0%N else 1%N]
+                                  | Ok ps => [0%N; if names_unique_b ps then 0%N else 1%N; if props_resolve D st m ps then 0%N else 1%N;
+                                              if client_paths_dec (map (fun p => (p_json p, p_path p)) ps) paths then 0%N else 1%N]
                                   | other => [cls other]
                                   end
                   | _ => [98%N]
@@ -200,7 +235,7 @@ Definition obs_model (D : desc) (o : c18obs) : list N :=
       match find_msg D full with
       | None => [99%N]
       | Some m => match cache_schema D (size D) [] m with
-                  | (st, Ok r) => let '(e, f) := codec_classes D st m r in [e; f]
+                  | (st, Ok r) => let '(e, f) := obs_codec_classes D st m r in [e; f]
                   | _ => [98%N]
                   end
       end
